@@ -781,7 +781,7 @@ def oracle_c18(rep, scn, replay, obs, root, report):
                        "packing list is not: one record per file path ever recorded, per format the earliest digest that did not fail")
             if o.get("_fs_changed"):
                 report("flatten-modified-source", i, [], o["_fs_changed"][:10], "flatten modified the source folder")
-        if st["op"] == "verifypl" and "expect" in st:
+        if st["op"] == "verifypl" and "expect" in st and any(s2["op"] == "flatten" and o2["outcome"] == ["exit", 0] for s2, o2 in zip(scn["steps"][:i], obs[:i])):
             _count(rep, "c18.verifypl." + ("ok" if st["expect"] == 0 else "altered"))
             if st["expect"] == 0 and o["outcome"] != ["exit", 0]:
                 report("verify-pl-false-alarm", i, ["exit", 0], o["outcome"], "verify -pl of the unchanged tree against the packing list does not exit 0: " + o["output"][-300:])
